@@ -32,7 +32,7 @@ Definition trashed (h : string) (v v' : vol) : Prop :=
             v' = (if life c =? 0 then with_blocks v (del_block (v_blocks v) h)
                   else with_both v (del_block (v_blocks v) h) (add_trash (v_trash v) h (deadline c now) m)).
 Definition untrashed (h : string) (v v' : vol) : Prop :=
-  v_ro v = false /\ exists t, In t (v_trash v) /\ t_hash t = h /\
+  v_ro v = false /\ find_block (v_blocks v) h = None /\ exists t, In t (v_trash v) /\ t_hash t = h /\
     v' = with_both v (set_block (v_blocks v) h (t_mtime t)) (filter (fun x => negb (same_trash h (t_dead t) x)) (v_trash v)).
 Definition emptied (v v' : vol) : Prop := v_ro v = false /\ v' = vol_empty v now.
 
@@ -63,7 +63,8 @@ Lemma vol_untrash_shape v h : snd (vol_untrash v h) = v \/ untrashed h v (snd (v
 Proof.
   unfold vol_untrash. destruct (v_ro v) eqn:Er; [left; reflexivity|].
   destruct (first_trash (v_trash v) h None) as [t|] eqn:Ef; [|left; reflexivity].
-  right. split; [exact Er|]. destruct (first_trash_in _ _ None t Ef) as [X|[X Y]]; [discriminate|].
+  destruct (find_block (v_blocks v) h) eqn:Eb; [left; reflexivity|].
+  right. split; [exact Er|]. split; [exact Eb|]. destruct (first_trash_in _ _ None t Ef) as [X|[X Y]]; [discriminate|].
   exists t. repeat split; assumption.
 Qed.
 
@@ -252,7 +253,7 @@ Proof.
     destruct (String.eqb_spec h h') as [->|Ne].
     + assert (m0 = m) by congruence. subst. repeat split; auto.
     + rewrite T3, find_del_other in Hn by exact Ne. congruence.
-  - destruct Hc as [->|[_ (t & _ & _ & ->)]]; [congruence|]. cbn [with_both v_blocks] in Hn.
+  - destruct Hc as [->|[_ [_ (t & _ & _ & ->)]]]; [congruence|]. cbn [with_both v_blocks] in Hn.
     destruct (String.eqb_spec h h') as [->|Ne]; [rewrite find_set_same in Hn; discriminate|rewrite find_set_other in Hn by exact Ne; congruence].
   - destruct Hc as [->|[_ ->]]; [congruence|]. cbn in Hn. congruence.
 Qed.
@@ -331,7 +332,7 @@ Proof.
       rewrite find_del_other in B by exact E. eauto.
   - destruct Hc as [->|Ht]; [contradiction|]. destruct (trashed_new_entry _ _ _ Ht t Hin Hnot) as (A & B & D).
     split; [exact B|]. rewrite A. eauto.
-  - destruct Hc as [->|[_ (t0 & _ & _ & ->)]]; [contradiction|]. cbn [with_both v_trash] in Hin. apply filter_In in Hin. tauto.
+  - destruct Hc as [->|[_ [_ (t0 & _ & _ & ->)]]]; [contradiction|]. cbn [with_both v_trash] in Hin. apply filter_In in Hin. tauto.
   - destruct Hc as [->|[_ ->]]; [contradiction|]. cbn in Hin. apply filter_In in Hin. tauto.
 Qed.
 
@@ -367,7 +368,7 @@ Proof.
   - destruct Hc as [->|Ht]; [split; auto|]. destruct (trashed_facts _ _ _ _ _ Ht) as (T1 & _). split; [congruence|].
     destruct Ht as (m & _ & _ & _ & _ & ->). destruct (life c =? 0); cbn [with_blocks with_both v_trash]; [exact Hex|].
     apply add_trash_keeps. exact Hex.
-  - destruct Hc as [->|[_ (t0 & Hin0 & Hh0 & ->)]]; [split; auto|]. split; [exact Hro|]. cbn [with_both v_trash].
+  - destruct Hc as [->|[_ [_ (t0 & Hin0 & Hh0 & ->)]]]; [split; auto|]. split; [exact Hro|]. cbn [with_both v_trash].
     destruct Hex as (t & A & B & D). exists t. split; [|auto]. apply filter_In. split; [exact A|].
     unfold same_trash. destruct (String.eqb_spec (t_hash t) h'); [|reflexivity]. exfalso. apply Ho. congruence.
   - destruct Hc as [->|[_ ->]]; [split; auto|]. split; [exact Hro|]. destruct Hex as (t & A & B & D).
@@ -400,8 +401,9 @@ Proof.
   cbn [untrash_all]. destruct (untrash_all r h) as [n r'] eqn:E. destruct i as [|i]; cbn [nth_error] in Hn.
   - inversion Hn; subst x. destruct Hex as (Hro & t & Hin & Hh). rewrite Hro.
     unfold vol_untrash. rewrite Hro. destruct (first_trash_some (v_trash v) h None) as (t' & Ft); [eauto|]. rewrite Ft.
-    cbn [fst snd nth_error]. eexists. split; [reflexivity|]. split; [|lia].
-    unfold has_block. cbn [with_both v_blocks]. rewrite find_set_same. reflexivity.
+    destruct (find_block (v_blocks v) h) eqn:Eb; cbn [fst snd nth_error]; eexists; (split; [reflexivity|]); (split; [|lia]).
+    + unfold has_block. rewrite Eb. reflexivity.
+    + unfold has_block. cbn [with_both v_blocks]. rewrite find_set_same. reflexivity.
   - destruct (IH i v Hn Hex) as (v' & A & B & D). try rewrite E in A. try rewrite E in D. cbn [fst snd] in A, D.
     destruct (v_ro x); cbn [fst snd nth_error].
     + exists v'. repeat split; auto.
